@@ -41,6 +41,13 @@ def required_formals(fn) -> list[str]:
             if p.default is inspect.Parameter.empty and p.kind in (p.POSITIONAL_ONLY, p.POSITIONAL_OR_KEYWORD)]
 
 
+def leading_formals(fn, n: int) -> list[str]:
+    """The first n positional parameters, whether or not they have defaults: a parameter that gains a default value is still the
+    same parameter of the same primitive (the binding of the spec's wiring table must not depend on it)."""
+    return [p.name for p in inspect.signature(fn).parameters.values()
+            if p.kind in (p.POSITIONAL_ONLY, p.POSITIONAL_OR_KEYWORD)][:n]
+
+
 SHARED_AXIS = np.array([431.0, 1507.0, 2750.5, 4203.0, 6111.0, 8019.0])
 
 
